@@ -81,6 +81,12 @@ class G:
         r = self.r
         if d <= 0 or r.random() < 0.25:
             return self.leaf(ty)
+        if self.cfg.wide and ty == U and self.cfg.version >= 5 and r.random() < 0.06:
+            self.note("wideratio")
+            nn, nd = r.choice([(1, 2), (2, 1), (2, 2), (3, 2), (1, 3), (3, 3)])
+            small = lambda: ("int", r.choice([1, 2, 3, 7, 2 ** 32, 2 ** 63]))  # noqa: E731
+            return ("wideratio", [self.expr(U, d - 1) if r.random() < 0.5 else small() for _ in range(nn)],
+                    [self.expr(U, d - 1) if r.random() < 0.3 else small() for _ in range(nd)])
         if self.cfg.call_bias and r.random() < self.cfg.call_bias:
             callable_ = [s for s in self.subs if s.ret == ty and self.can_call(s)]
             if callable_:
